@@ -292,6 +292,38 @@ def misc(rep, tier):
                                           "tokenizer %r reused on levels %r after its validator's threshold went from %d to %d gives %r, "
                                           "a fresh tokenizer with the same validator %r" % (params, levels, t1, t2, got, fresh), {"kind": "misc"})
                             break
+    # one region object split several times with *different* settings, through split() and split_and_plot() (drawing
+    # stubbed out): every call gives what a freshly built region gives for the same settings
+    core.plot = lambda *a, **k: None
+    for p in ("AaA", "aAAaAAAa", "LRaA"):
+        data = pcm(p)
+        variants = [dict(energy_threshold=50), dict(energy_threshold=120), dict(eth=50), dict(energy_threshold=50, analysis_window=0.2),
+                    dict(energy_threshold=50), dict(validator=util.AudioEnergyValidator(120, 2, 1)), dict(validator=util.AudioEnergyValidator(50, 2, 1))]
+        for method in ("split", "split_and_plot"):
+            for base in (dict(min_dur=0.1, max_dur=0.3, max_silence=0.1), dict(min_dur=0.2, max_dur=0.4, max_silence=0.0)):
+                reg = core.AudioRegion(data, 10, 2, 1)
+                for i, extra in enumerate(variants):
+                    rep.add("evaluations")
+                    kw = dict(base, **extra)
+                    if "analysis_window" not in kw:
+                        kw["analysis_window"] = 0.1
+                    try:
+                        if method == "split":
+                            got = [(r.data, r.start) for r in reg.split(**kw)]
+                            ref = [(r.data, r.start) for r in core.AudioRegion(data, 10, 2, 1).split(**kw)]
+                        else:
+                            got = [(r.data, r.start) for r in reg.split_and_plot(show=False, **kw)]
+                            ref = [(r.data, r.start) for r in core.AudioRegion(data, 10, 2, 1).split_and_plot(show=False, **kw)]
+                        msg = None if got == ref else "call #%d on the same region (%s) gives starts %r, a fresh region %r" % (
+                            i + 1, sorted(extra), [x[1] for x in got], [x[1] for x in ref])
+                        if ref:
+                            rep.add("distinct_nontrivial")
+                    except Exception as exc:
+                        msg = "raised %r" % (exc,)
+                    if msg:
+                        rep.violation("region re-split method=%s pattern=%s call=%d" % (method, p, i + 1),
+                                      "%s with other settings than before: %s" % (method, msg), {"kind": "misc"})
+                        break
     # a lazily read file source (raw / wav, large_file=True) split to its end, closed and split again: the same regions
     import wave as _wave
 
